@@ -7,6 +7,8 @@ import copy
 import itertools
 from fractions import Fraction as F
 
+import numpy as np
+
 import gen
 import sut
 from engine import Outcome, jsonable
@@ -20,9 +22,20 @@ SAFE_CARRIERS = ["nd_f8", "list_none", "list_nan", "series", "tuple_none", "ma_j
 SAFE_TCARRIERS = ["dt64ns", "epoch_int", "dtindex", "dt64s", "dtindex_us", "series_ms"]
 
 
+def f32_exact(case):
+    """Every series value is exactly a float32."""
+    for k in SERIES_KEYS[case["fn"]]:
+        if k == "t":
+            continue
+        for v in case[k]:
+            if v is not None and F(float(np.float32(float(v)))) != v:
+                return False
+    return True
+
+
 def pick_carriers(case, rng):
     fn = case["fn"]
-    carrier = rng.choice(SAFE_CARRIERS)
+    carrier = rng.choice(SAFE_CARRIERS + (["nd_f4"] * 2 if fn in ("gross", "valid", "climatology") and f32_exact(case) else []))
     if fn == "valid":
         carrier = "nd_f8"            # valid_range_test takes numpy arrays (Series: see C15)
     if fn == "pressure":
